@@ -826,15 +826,23 @@ fn function2_registry() -> HashMap<Func2Type, Vec<Function2>> {
     vec![
         (
             Func2Type::Add,
-            vec![Function2::integer_op(Box::new(|qp, lhs, rhs| {
-                qp.checked_add(lhs, rhs)
-            }))],
+            vec![
+                Function2::integer_op(Box::new(|qp, lhs, rhs| qp.checked_add(lhs, rhs))),
+                Function2::forward_left_null(BasicType::Integer),
+                Function2::forward_right_null(BasicType::Integer),
+                Function2::forward_left_null(BasicType::Null),
+                Function2::forward_right_null(BasicType::Null),
+            ],
         ),
         (
             Func2Type::Subtract,
-            vec![Function2::integer_op(Box::new(|qp, lhs, rhs| {
-                qp.checked_subtract(lhs, rhs)
-            }))],
+            vec![
+                Function2::integer_op(Box::new(|qp, lhs, rhs| qp.checked_subtract(lhs, rhs))),
+                Function2::forward_left_null(BasicType::Integer),
+                Function2::forward_right_null(BasicType::Integer),
+                Function2::forward_left_null(BasicType::Null),
+                Function2::forward_right_null(BasicType::Null),
+            ],
         ),
         (
             Func2Type::Multiply,
@@ -881,9 +889,13 @@ fn function2_registry() -> HashMap<Func2Type, Vec<Function2>> {
         ),
         (
             Func2Type::Modulo,
-            vec![Function2::integer_op(Box::new(|qp, lhs, rhs| {
-                qp.checked_modulo(lhs, rhs)
-            }))],
+            vec![
+                Function2::integer_op(Box::new(|qp, lhs, rhs| qp.checked_modulo(lhs, rhs))),
+                Function2::forward_left_null(BasicType::Integer),
+                Function2::forward_right_null(BasicType::Integer),
+                Function2::forward_left_null(BasicType::Null),
+                Function2::forward_right_null(BasicType::Null),
+            ],
         ),
         (
             Func2Type::LT,
@@ -919,6 +931,14 @@ fn function2_registry() -> HashMap<Func2Type, Vec<Function2>> {
                     type_out: Type::unencoded(BasicType::Boolean).mutable(),
                     encoding_invariance: true,
                 },
+                Function2::forward_left_null(BasicType::Float),
+                Function2::forward_right_null(BasicType::Float),
+                Function2::forward_left_null(BasicType::Integer),
+                Function2::forward_right_null(BasicType::Integer),
+                Function2::forward_left_null(BasicType::String),
+                Function2::forward_right_null(BasicType::String),
+                Function2::forward_left_null(BasicType::Null),
+                Function2::forward_right_null(BasicType::Null),
             ],
         ),
         (
@@ -955,6 +975,8 @@ fn function2_registry() -> HashMap<Func2Type, Vec<Function2>> {
                     type_out: Type::unencoded(BasicType::Boolean).mutable(),
                     encoding_invariance: true,
                 },
+                Function2::forward_left_null(BasicType::String),
+                Function2::forward_right_null(BasicType::String),
                 Function2::forward_left_null(BasicType::Float),
                 Function2::forward_right_null(BasicType::Float),
                 Function2::forward_left_null(BasicType::Integer),
@@ -997,6 +1019,8 @@ fn function2_registry() -> HashMap<Func2Type, Vec<Function2>> {
                     type_out: Type::unencoded(BasicType::Boolean).mutable(),
                     encoding_invariance: true,
                 },
+                Function2::forward_left_null(BasicType::String),
+                Function2::forward_right_null(BasicType::String),
                 Function2::forward_left_null(BasicType::Float),
                 Function2::forward_right_null(BasicType::Float),
                 Function2::forward_left_null(BasicType::Integer),
@@ -1039,6 +1063,8 @@ fn function2_registry() -> HashMap<Func2Type, Vec<Function2>> {
                     type_out: Type::unencoded(BasicType::Boolean).mutable(),
                     encoding_invariance: true,
                 },
+                Function2::forward_left_null(BasicType::String),
+                Function2::forward_right_null(BasicType::String),
                 Function2::forward_left_null(BasicType::Float),
                 Function2::forward_right_null(BasicType::Float),
                 Function2::forward_left_null(BasicType::Integer),
@@ -1081,6 +1107,8 @@ fn function2_registry() -> HashMap<Func2Type, Vec<Function2>> {
                     type_out: Type::unencoded(BasicType::Boolean).mutable(),
                     encoding_invariance: true,
                 },
+                Function2::forward_left_null(BasicType::String),
+                Function2::forward_right_null(BasicType::String),
                 Function2::forward_left_null(BasicType::Float),
                 Function2::forward_right_null(BasicType::Float),
                 Function2::forward_left_null(BasicType::Integer),
@@ -1123,6 +1151,8 @@ fn function2_registry() -> HashMap<Func2Type, Vec<Function2>> {
                     type_out: Type::unencoded(BasicType::Boolean).mutable(),
                     encoding_invariance: true,
                 },
+                Function2::forward_left_null(BasicType::String),
+                Function2::forward_right_null(BasicType::String),
                 Function2::forward_left_null(BasicType::Float),
                 Function2::forward_right_null(BasicType::Float),
                 Function2::forward_left_null(BasicType::Integer),
